@@ -53,7 +53,9 @@ fn step(i: &mut Inst, n: usize) {
             if let Ok(a) = &r {
                 i.addrs.push(a.clone());
             }
-            format!("{:?}", r.map_err(|e| e.to_string()))
+            // a salt of invalid length: the refusal (or whatever happens) is the same everywhere (seed C19f)
+            let bad = i.app.instantiate2_contract(9, user.clone(), &Script::new(), &[], "b0", None, Binary::from(vec![]));
+            format!("{:?} {:?}", r.map_err(|e| e.to_string()), bad.map_err(|e| e.to_string()))
         }
         3 => {
             // a transaction with a caught failure inside
